@@ -159,6 +159,8 @@ func Run(kind, repo, out string) error {
 		return genAuth(repo, out)
 	case "fees":
 		return genFees(repo, out)
+	case "clock":
+		return genClock(repo, out)
 	}
 	return fmt.Errorf("unknown extractor %s", kind)
 }
